@@ -104,6 +104,13 @@ def generic(sym, form, N, dom, ragged, miss):
     elif form == 'rowmissing':
         mk = lambda **kw: petl.select(table, lambda rec: rec['k'] == 'MISSING' or rec['k'] is None, missing=missing, **kw)
         pred = lambda k: k is None or k == 'MISSING'
+    elif form == 'fieldtruthy':
+        # a predicate that returns its argument: non-bool truthiness ('' / 0 / None are false)
+        mk = lambda **kw: petl.select(table, 'k', lambda x: x, missing=missing, **kw)
+        pred = lambda k: bool(k)
+    elif form == 'rowtruthy':
+        mk = lambda **kw: petl.select(table, lambda rec: rec['k'], missing=missing, **kw)
+        pred = lambda k: bool(k)
     elif form == 'expr':
         mk = lambda **kw: petl.select(table, "{k} is None", missing=missing, **kw)
         pred = lambda k: k is None
@@ -115,12 +122,36 @@ def generic(sym, form, N, dom, ragged, miss):
     check(got == exp, 'select: selected rows', ks, v, got, exp)
     gotc, _ = _tags(mk(complement=True))
     check(gotc == rest, 'select complement is not the exact rest', ks, v, gotc)
-    if form in ('field', 'row'):
-        args = ('k', lambda x: x == v) if form == 'field' else (lambda rec: rec['k'] == v,)
+    if form in ('field', 'row', 'fieldtruthy', 'rowtruthy'):
+        args = {'field': ('k', lambda x: x == v), 'row': (lambda rec: rec['k'] == v,), 'fieldtruthy': ('k', lambda x: x),
+                'rowtruthy': (lambda rec: rec['k'],)}[form]
         t1, t2 = petl.biselect(table, *args, missing=missing)
         g1, _ = _tags(t1)
         g2, _ = _tags(t2)
         check(g1 == exp and g2 == rest, 'biselect does not partition the input', g1, g2)
+
+
+def membership_op(sym, N):
+    """selectin / selectnotin follow the `in` operator of the given container, whatever it is."""
+    table, rows, ks = _table(sym, N, 'S', False)
+    n = len(rows)
+    form = sym.choice('container', 3)
+    if form == 0:
+        cont = sym.pick('str', ['ab', 'xab', ''])           # substring membership
+        inn = lambda k: k in cont
+    elif form == 1:
+        cont = [['a'], []]                                   # unhashable members
+        rows2 = [[r[0], [r[1]] if len(r[1]) else []] for r in rows]
+        table = [['t', 'k']] + rows2
+        ks = [r[1] for r in rows2]
+        inn = lambda k: any(k == c for c in cont)
+    else:
+        cont = {'a': 1, 'b': 2}                              # mapping: membership of keys
+        inn = lambda k: k in cont
+    got, _ = _tags(petl.selectin(table, 'k', cont))
+    check(got == ['T%d' % i for i in range(n) if inn(ks[i])], 'selectin', ks, cont, got)
+    gotn, _ = _tags(petl.selectnotin(table, 'k', cont))
+    check(gotn == ['T%d' % i for i in range(n) if not inn(ks[i])], 'selectnotin is not the exact rest', ks, cont, gotn)
 
 
 def facet_op(sym, N, dom):
@@ -257,13 +288,14 @@ def jobs(tier):
                             params=dict(sel=sel, N=1 if q else 2, dom='X', ragged=False), budget=B))
         out.append(dict(name='%s/O/ragged/n<=%d' % (sel, 2 if q else 3), func='comparison',
                         params=dict(sel=sel, N=2 if q else 3, dom='O', ragged=True), budget=B))
-    for form in ('field', 'row', 'fieldmissing', 'rowmissing', 'expr'):
+    for form in ('field', 'row', 'fieldmissing', 'rowmissing', 'expr', 'fieldtruthy', 'rowtruthy'):
         for miss in ('none', 'tag'):
             out.append(dict(name='select-%s/M/ragged/missing=%s' % (form, miss), func='generic',
                             params=dict(form=form, N=2 if q else 3, dom='M' if form in ('field', 'row') else 'O',
                                         ragged=True, miss=miss), budget=B))
     for dom in ('Od2', 'Md2'):
         out.append(dict(name='facet/%s' % dom, func='facet_op', params=dict(N=3 if q else 4, dom=dom), budget=B))
+    out.append(dict(name='selectin-containers', func='membership_op', params=dict(N=2 if q else 3), budget=B))
     out.append(dict(name='selectcontains', func='contains_op', params=dict(N=2 if q else 3), budget=B))
     out.append(dict(name='rowlenselect', func='rowlen_op', params=dict(N=2 if q else 3), budget=B))
     for ff in (True, False):
